@@ -70,6 +70,9 @@ func checkRepeat(c Case) *pk.Failure {
 		return f
 	}
 	all := append(append([]sb.RepResult{}, resp.Reps...), resp2.Reps...)
+	if c.WantAccept && len(all) > 0 && len(all[0].Runs) == 0 {
+		return pk.Failf("repeat", "table-rejected", "a table program that is meant to run was not accepted:\n%s\n%s", diagMultiset(append(append([]sb.Diag{}, all[0].Diags...), all[0].SyntaxErrors...)), px.ProgText(c.ProgCase))
+	}
 	if len(all) < 2 {
 		return pk.Failf("repeat", "no-reps", "expected repetitions, got %d", len(all))
 	}
@@ -156,7 +159,6 @@ var fixed = map[string]map[string]string{
 	"objects": {"main": `fn main() {
     let o = new { zeta: 1, alpha: "a", mid: [1, 2], beta: 2.5, omega: true };
     println(o);
-    println(o.to_string());
     println(o.to_json());
     println(o.keys());
     let a = new { ? };
@@ -243,6 +245,69 @@ fn main() {
     for i in r { println(i); }
 }
 `},
+	// function literals in several modules, printed: what a function value displays must not depend on the order
+	// in which the compiler happens to visit the modules
+	"lambda-display": {"main": `import { fa, ga } from a;
+import { fb } from b;
+fn main() {
+    let f = fn() -> int { 1 };
+    let g = fn(x: int) -> int { x };
+    println(f, g, fa(), fb(), ga());
+    println(f, main);
+}
+`, "a": `pub fn fa() -> int { let g = fn() -> int { 2 }; let h = fn() -> int { 3 }; println(g, h); g() + h() }
+pub fn ga() -> str { let k = fn() -> str { "k" }; println(k); k() }
+fn main() {}
+`, "b": `import { fa } from a;
+pub fn fb() -> int { let g = fn() -> int { 4 }; println(g); g() + fa() }
+fn main() {}
+`, "c": `pub fn fc() -> int { let g = fn() -> int { 5 }; g() }
+fn main() {}
+`},
+	// values that fail a cast in more than one place: which place is named must not depend on map order
+	"cast-failure-paths": {"main": `fn main() {
+    let o = new { a: "s", b: "t", c: "u", d: "v" };
+    let x: any = o;
+    try { let y = x as { a: int, b: int, c: int, d: int }; println(y.a); } catch e { println(e.message); }
+    try { let y = x as { a: str }; println(y.a); } catch e { println(e.message); }
+    try { let y = x as { a: str, b: str, c: str, d: str, e: str, f: str, g: str }; println(y.a); } catch e { println(e.message); }
+    let j: any = "{\"p\": 1, \"q\": 2, \"r\": 3, \"s\": [1, \"x\", true]}".parse_json();
+    try { let y = j as { p: str, q: str, r: str, s: [int] }; println(y.p); } catch e { println(e.message); }
+    try { let y: { p: int } = j; println(y.p); } catch e { println(e.message); }
+    try { let y = j as { ? }; println(y.keys()); println(y); println(y.to_json()); } catch e { println(e.message); }
+    let l: any = "[{\"a\": 1, \"b\": 2}, {\"a\": \"x\", \"b\": \"y\"}]".parse_json();
+    try { let y = l as [{ a: int, b: int }]; println(y.len()); } catch e { println(e.message); }
+}
+`},
+	"diagnostics-objects": {"main": `type T = { a: int };
+type U = { a: int, b: int, c: int, d: int };
+fn take(t: T) -> int { t.a }
+fn main() {
+    let v: T = new { a: 1, x: 2, y: 3, z: 4, w: 5 };
+    let u: U = new { a: 1 };
+    let w: U = new { a: "s", b: "t", c: "u", d: "v" };
+    println(take(new { a: 1, p: 1, q: 2, r: 3 }));
+    println(v.nope, u.nope, w.nope);
+    let o = new { a: 1, b: 2 };
+    let p: { a: int, b: int, c: int, d: int } = o;
+    let q: { z: int } = new { k1: 1, k2: 2, k3: 3 };
+}
+`},
+	"diagnostics-templates": {"main": `import templ FooFeature from templates;
+$Lamp = { lit: bool };
+$Other = { n: int };
+impl FooFeature with { light, temperature } for $Lamp {
+    fn dim(s: $Lamp, percent: int) -> bool { true }
+    fn set_temp(s: $Lamp, celsius: float) {}
+    fn extra1(s: $Lamp) {}
+    fn extra2(s: $Lamp) {}
+}
+impl FooFeature with { nope1, nope2, nope3 } for $Other {
+    fn a1(s: $Other) {}
+    fn a2(s: $Other) {}
+}
+fn main() { println(1); }
+`},
 	"lambdas-and-locals": {"main": `fn main() {
     let a = 1; let b = 2; let c = 3; let d = 4; let e = 5; let f = 6; let g = 7; let h = 8;
     let l1 = fn(p: int) -> int { p + 1 };
@@ -289,6 +354,7 @@ func TestTableFixed(t *testing.T) {
 			c := Case{ProgCase: px.ProgCase{Modules: fixed[n], Entry: "main", Limits: sb.DefaultLimits(), Note: n}, Reps: pk.Scale(12, 60), GoMaxProcs: gmp}
 			pk.Eval()
 			pk.NonTrivial(n+fmt.Sprint(gmp), map[string]any{"program": n, "reps": c.Reps, "gomaxprocs": gmp})
+			c.WantAccept = !strings.HasPrefix(n, "diagnostics")
 			f := checkRepeat(c)
 			if f != nil {
 				f.Sig = f.Sig + ":" + n
